@@ -104,6 +104,15 @@ def step (_ : Unit) (ts : List String) : Unit × String :=
     | ["instu", a] => match a.toInt? with
       | some u => if inRange (roundMs u) then instLineU u ++ " or=ok" else "range"
       | none => "bad-op"
+    | ["tieu", a] => match a.toInt? with
+      | some u => if inRange (u / 1000) && inRange (u / 1000 + 1) then "ok" else "range"
+      | none => "bad-op"
+    | ["rtp", h] => match unhex h with
+      | some b => match parse b with
+        | none => "oob"
+        | some none => "nan"
+        | some (some t) => if -62135596800000 < t && t < 253402300799999 then "ok" else "range"
+      | none => "bad-op"
     | ["splitu", a] => match a.toInt? with
       | some u => if inRange (roundMs u) then fieldsStr (calcU u) else "range"
       | none => "bad-op"
